@@ -57,7 +57,7 @@ for _ob, _tier in ((0, "quick"),):   # the obfuscating variant is retired: repla
 
 
 # ---- (2c) after the repair (fix: "email obfuscation depends on earlier conversions"): every export restarts the generator
-U("c05_export_restarts_prng", ["C05"], "h_scratch_restarts", ["C05/reseed.c"], ["writer.c", "stack.c"], plain=True, lib=(), kind="finite",
+U("c05_export_restarts_prng", ["C05", "C06"], "h_scratch_restarts", ["C05/reseed.c"], ["writer.c", "stack.c"], plain=True, lib=(), kind="finite",
   defines=["-DUNIT_SCRATCH"], cbmc_flags=["--unwind", "2", "--unwinding-assertions"],
   functions=["scratch_pad_new"], callees={"ran_start": "logging stub", "stack_new": "body", "store_*": "not reached (engine stacks empty)"},
   nobody_ok=["rand"], assumptions=["engine stacks are empty in this unit (the restart is the first statement of scratch_pad_new and does not depend on them)", NOFAIL,
